@@ -4,6 +4,7 @@
 # the crate's own tests pass with it; then runs /verif's check for <ID> against it in a scratch copy.
 # Writes /verif/seeded/<ID>/{patch.diff,demo,meta.json}.
 ID="$1"; CRATE="$2"; DEMO="$3"; shift 3
+CHK="${ID:0:3}"   # second seeds are named e.g. C02b: the check is C02
 WT=/tmp/seed-$ID; export CARGO_TARGET_DIR=/var/tmp/seed-verify-$ID CARGO_NET_OFFLINE=true
 # private target dir per seed (a shared one mixes artifacts of different worktrees); seeded from the shared cache for the registry deps
 mkdir -p "$CARGO_TARGET_DIR"; export CARGO_INCREMENTAL=0
@@ -26,8 +27,8 @@ echo "r_without=$r_without r_with=$r_with crate_failed_binaries=$crate_fail" >> 
 # our check against the patch
 /verif/tools/scratch.sh create seed$ID > /dev/null 2>&1
 git -C /var/tmp/vs-seed$ID/repo apply $OUT/patch.diff >> $log 2>&1 || echo "patch does not apply on current HEAD" >> $log
-echo "== /verif check $ID quick against patched scratch" >> $log
-/verif/tools/scratch.sh run seed$ID $ID quick > $OUT/check_quick.out 2>&1; rc=$?
+echo "== /verif check $CHK quick against patched scratch" >> $log
+/verif/tools/scratch.sh run seed$ID $CHK quick > $OUT/check_quick.out 2>&1; rc=$?
 echo "check_rc=$rc" >> $log
 grep -E "^VIOLATION|violation sub=|^INCONCLUSIVE" $OUT/check_quick.out | head -3 >> $log
 /verif/tools/scratch.sh rm seed$ID
